@@ -8,7 +8,8 @@ PROFILE = {"p_write": 0.55, "file_obs": True, "p_scenario": 0.3, "scenario_pref"
            "writes": {"insert": 4, "insert_multiple": 2, "remove": 3, "drop": 1, "remove_all": 0.5, "update": 3, "update_all": 1,
                       "reindex": 0.5, "reopen": 1.5, "handle": 1.5}}
 DIALECTS = [{}, {}, {"delimiter": ";"}, {"quotechar": "'"}, {"quoting": csv.QUOTE_ALL}, {"delimiter": "|", "quotechar": "'", "quoting": csv.QUOTE_ALL},
-            {"delimiter": "\t"}, {"lineterminator": "\n"}, {"lineterminator": "\r"}, {"lineterminator": "\n", "delimiter": ";"}]
+            {"delimiter": "\t"}, {"lineterminator": "\n"}, {"lineterminator": "\r"}, {"lineterminator": "\n", "delimiter": ";"},
+            {"escapechar": "\\"}, {"escapechar": "\\", "quoting": csv.QUOTE_NONE}]
 ENCODINGS = [None, None, "utf-8", "utf-16", "latin-1"]
 
 
